@@ -899,3 +899,12 @@ class UfuncCallsite(Contract):
                 continue
             it.assume(f)
         return r
+
+
+# temperature pairs the library refuses for every reading (C08 allows a refusal wherever it does
+# not demand a value): no returning path is expected of them; every other contract must keep one
+# (cover obligation, pyvc/contracts.py)
+ALWAYS_REFUSED = ('U_add_call_qq_T_K_degC', 'U_subtract_call_qq_T_K_degC', 'U_add_call_qq_T_K_degF', 'U_subtract_call_qq_T_K_degF', 'U_add_call_qq_T_K_mdegC', 'U_subtract_call_qq_T_K_mdegC', 'U_add_call_qq_T_R_degC', 'U_subtract_call_qq_T_R_degC', 'U_add_call_qq_T_R_degF', 'U_subtract_call_qq_T_R_degF', 'U_add_call_qq_T_R_mdegC', 'U_subtract_call_qq_T_R_mdegC', 'U_subtract_call_qq_T_degC_K', 'U_subtract_call_qq_T_degC_R', 'U_add_call_qq_T_degC_degF', 'U_subtract_call_qq_T_degC_degF', 'U_subtract_call_qq_T_degC_delta_degF', 'U_subtract_call_qq_T_degC_mK', 'U_subtract_call_qq_T_degF_K', 'U_subtract_call_qq_T_degF_R', 'U_add_call_qq_T_degF_degC', 'U_subtract_call_qq_T_degF_degC', 'U_subtract_call_qq_T_degF_delta_degC', 'U_subtract_call_qq_T_degF_mK', 'U_subtract_call_qq_T_delta_degC_degF', 'U_subtract_call_qq_T_delta_degC_mdegC', 'U_subtract_call_qq_T_delta_degF_degC', 'U_subtract_call_qq_T_delta_degF_mdegC', 'U_add_call_qq_T_mK_degC', 'U_subtract_call_qq_T_mK_degC', 'U_add_call_qq_T_mK_degF', 'U_subtract_call_qq_T_mK_degF', 'U_add_call_qq_T_mK_mdegC', 'U_subtract_call_qq_T_mK_mdegC', 'U_subtract_call_qq_T_mdegC_K', 'U_subtract_call_qq_T_mdegC_R', 'U_subtract_call_qq_T_mdegC_degC', 'U_subtract_call_qq_T_mdegC_degF', 'U_subtract_call_qq_T_mdegC_delta_degC', 'U_subtract_call_qq_T_mdegC_delta_degF', 'U_subtract_call_qq_T_mdegC_mK', 'U_subtract_call_qq_T_mdegC_mdegC')
+for _n in ALWAYS_REFUSED:
+    globals()[_n].expect_return = False
+_UnaryOffsetRefusal.expect_return = False
